@@ -78,7 +78,13 @@ def canon_pin(pin, d, out):
         if inst.parent is d:
             if inst.name is not None and sum(1 for c in d.children if c.name == inst.name) != 1:
                 raise OutsideModel('duplicate sibling instance name')
-            out += ['O', tok_oname(inst.name), tok_oname(ip.port.name), str(bit)]
+            if inst.name is None:
+                # a child without a name is not identified by a name: the names of its reference
+                # travel with the pin (PAnon of Cmp/Comparer.v)
+                out += ['A', tok_oname(ref.name), tok_oname(ref.library.name if ref.library is not None else None),
+                        tok_oname(ip.port.name), str(bit)]
+            else:
+                out += ['O', tok_oname(inst.name), tok_oname(ip.port.name), str(bit)]
         elif inst.parent is None:
             out += ['D', tok_oname(inst.name), tok_oname(ref.name),
                     tok_oname(ref.library.name if ref.library is not None else None),
@@ -159,10 +165,12 @@ def real_keys(netlist):
                         except Exception as e:  # noqa
                             out.append('e:' + EXN.get(type(e), 'other:' + type(e).__name__))
                             continue
-                        if not (isinstance(k, tuple) and len(k) == 4 and isinstance(k[0], bool) and isinstance(k[3], int)):
+                        if not (isinstance(k, tuple) and len(k) == 4 and isinstance(k[0], bool)
+                                and (k[3] is None or isinstance(k[3], int))):
                             out.append('e:shape:%r' % (k,))
                             continue
-                        out.append('k:%d:%s:%s:%d' % (1 if k[0] else 0, tok_oname(k[1]), tok_oname(k[2]), k[3]))
+                        out.append('k:%d:%s:%s:%s' % (1 if k[0] else 0, tok_oname(k[1]), tok_oname(k[2]),
+                                                      '~' if k[3] is None else str(k[3])))
     return out
 
 
